@@ -49,6 +49,7 @@ type Style struct {
 	WS    string `json:"ws"`    // "" single blanks, "wide" tabs/newlines/double blanks, "tight" no blanks where optional
 	Paren int    `json:"paren"` // redundant parentheses around every sub-expression (0..2)
 	Cont  bool   `json:"cont"`  // spell in / not in as contains / not contains
+	DNeg  int    `json:"dneg"`  // spell every match m as `not not m` (1) or `not (not m)` (2): the parser folds double negation
 }
 
 // Quote spells s as a Go string literal in the given style, if it can.
@@ -209,7 +210,17 @@ func render(e *Expr, st Style, sp, osp string, ctx int) (string, error) {
 			}
 			out = sel + sp + words(opText[e.Op], sp) + sp + v
 		}
-		return wrap(out, st.Paren), nil
+		out = wrap(out, st.Paren)
+		switch st.DNeg {
+		case 1:
+			out = "not" + sp + "not" + sp + out
+		case 2:
+			out = "not" + sp + "(" + osp + "not" + sp + out + osp + ")"
+		}
+		if st.DNeg != 0 && ctx > 2 {
+			out = "(" + out + ")"
+		}
+		return out, nil
 	case "not":
 		in, err := render(e.E, st, sp, osp, 2)
 		if err != nil {
